@@ -433,6 +433,7 @@ func c01R5(c *Ctx, r *Report) {
 		}
 		r.Check("C01-R5", "fn=(*db.changeListener).Wait predicate-checked-under-lock before-each-wait", c.Pos(w.Pos()), ok, "no check-then-wait window", "the waiter can block without (re-)evaluating its predicate under the lock: a notification between check and wait would be lost")
 	}
+	c01PendingFlush(c, r)
 	// processEntry callers
 	n := 0
 	for _, fn := range c.ScopeFuncs() {
@@ -462,6 +463,30 @@ func c01R5(c *Ctx, r *Report) {
 				flows = c01FlowsToNotifyViaSet(c, fn, cv)
 			}
 			r.Check("C01-R5", fmt.Sprintf("fn=%s processEntry #%d result→notify", c.FuncName(fn), n), c.Pos(call.Pos()), flows, "changed channels are forwarded to the notifier", "the channels changed by this entry are not forwarded to the change notifier: continuous/longpoll feeds on those channels would not wake up")
+		}
+	}
+}
+
+// c01PendingFlush: results of _addPendingLogs / processUnusedRange are either returned to the caller or forwarded to the notifier.
+func c01PendingFlush(c *Ctx, r *Report) {
+	n := 0
+	for _, fn := range c.ScopeFuncs() {
+		for _, call := range c.Calls(fn, false, nameIs("(*db.changeCache)._addPendingLogs", "(*db.changeCache).processUnusedRange")) {
+			cv, ok := call.(*ssa.Call)
+			if !ok {
+				continue
+			}
+			n++
+			returned := false
+			for _, ret := range Returns(fn) {
+				for _, res := range ret.Results {
+					if DependsOn(res, func(v ssa.Value) bool { return v == ssa.Value(cv) }) {
+						returned = true
+					}
+				}
+			}
+			notified := c01FlowsToNotifyViaSet(c, fn, cv)
+			r.Check("C01-R5", fmt.Sprintf("fn=%s %s #%d result→return|notify", c.FuncName(fn), CalleeIdent(call), n), c.Pos(call.Pos()), returned || notified, "channels unblocked by flushing pending entries reach the notifier", "channels changed by flushing pending entries are dropped: feeds waiting on them are not woken")
 		}
 	}
 }
